@@ -49,3 +49,6 @@ contract("harness_spec:best_ms_value", props=["C20"], mode="int", spec_module="s
                   "representable": "exists_code(result)",
                   "largest": "forall(lambda m, b: implies(0 <= m <= 63 and 0 <= b <= 3 and m * LT_BASE_MS[b] <= v, m * LT_BASE_MS[b] <= result))"},
          canary={"identity": "result == v"})
+contract("harness_geonet:reported_remaining_lifetime", props=["C20"], mode="int", spec_module="spec_geonet",
+         shapes={"lt_ms_value": T.int(0)}, ensures={"never_exceeds_header_lifetime": "result * 1000 <= lt_ms_value"},
+         float_as_real=True)
